@@ -33,7 +33,7 @@ def corpus():
 
 
 def generate(rng, tier):
-    n = 500 if tier == "quick" else 40000
+    n = 800 if tier == "quick" else 40000
     for k in range(n):
         nd = rng.choice([1, 2, 2, 3, 3, 4])
         shape = [rng.randint(3, 7) for _ in range(nd)]
